@@ -67,6 +67,30 @@ def order_sweep(ctx, db, aff, r):
             pairs = r.sample(pairs, 30)
         for u, v in pairs:
             work.append((qt, u, v))
+    # zero on either side wherever a unit with a zero point of its own is involved (every such unit against every unit of its
+    # type, whatever pairs the sample below draws): 0 degC is not zero kelvin, 0 psig is one atmosphere
+    if ctx.shard == 0:
+        for qt, us in table.units_by_type(db).items():
+            us = [u for u in us if u in aff and aff[u].exact and aff[u].slope > 0]
+            for u in us:
+                if aff[u].off == 0.0 or qt == "Unknown":
+                    continue
+                for v in us:
+                    if v == u:
+                        continue
+                    au, av = aff[u], aff[v]
+                    for x, y in ((0.0, 0.5), (0.0, 0.0), (0.5, 0.0), (-0.0, 300.0), (0, 1), (1.0, 0), (-400.0, 0.0)):
+                        A = Fr(au.off) + Fr(au.slope) * Fr(x)
+                        B = Fr(av.off) + Fr(av.slope) * Fr(y)
+                        noise = Fr(16 * conv.EPS) * (abs(Fr(au.off)) + abs(Fr(au.slope) * Fr(x)) + abs(Fr(av.off)) + abs(Fr(av.slope) * Fr(y)))
+                        case = {"qt": qt, "u": u, "v": v, "x": x, "y": y, "zero on one side": True}
+                        ctx.nt(("order zero", qt, u, v))
+                        try:
+                            order_pair(ctx, Scalar(x, u), Scalar(y, v), A, B, noise, case, "Scalar")
+                            order_pair(ctx, Scalar(y, v), Scalar(x, u), B, A, noise, dict(case, swapped=True), "Scalar")
+                            order_pair(ctx, FractionScalar(FractionValue(x), u), FractionScalar(FractionValue(y), v), A, B, noise * 4, dict(case, fraction=True), "FractionScalar")
+                        except Exception as e:
+                            ctx.violation("Scalar:construction-raised", dict(case, error=repr(e)[:200]), replay=case)
     hv = [x for x in values.hostile() if abs(x) < 1e10]
     for idx, (qt, u, v) in enumerate(work):
         if idx % ctx.nshards != ctx.shard:
